@@ -1,0 +1,51 @@
+//go:build verif
+// +build verif
+
+package http
+
+// Machine-checked contracts for the HTTP transport (comment-only file).
+
+// readAll: with a declared length the buffer has exactly that length and was filled completely by
+// one ReadFull; without one, everything the body delivered until EOF. Any error is returned.
+//@ func readAll
+//@   prop C12 C13
+//@   nopanic
+//@   modifies ghost.rpos[*], ghost.bufsrc[*], ghost.bufpos[*], ghost.bufn[*]
+//@   ensures [declared_length_is_buffer_length] result1 == nil && length > 0 ==> len(result0) == length
+//@   ensures [complete_or_error] result1 == nil && result0 != nil ==> off(result0) == 0 && ghost.bufn[arr(result0)] == len(result0)
+
+// ServeHTTP hands a request to the service only if its body was read completely and without error
+// (C12) and the bytes actually received are within the limit (C13: the callee's precondition
+// len(request) <= MaxRequestLength is an obligation at the call); refusals answer 413.
+//@ func (*Handler).ServeHTTP
+//@   prop C12 C13
+//@   havoc
+//@   modifies ghost.*
+//@   requires h != nil && h.Service != nil
+//@   stable h.Service, h.Service.MaxRequestLength
+//@   atcall Handle [body_read_completely_and_without_error] data == nil || (off(data) == 0 && ghost.bufn[arr(data)] == len(data))
+//@   ensures [processed_only_within_limit] ghost.handled == old(ghost.handled) || len(ghost.handled_req) <= h.Service.MaxRequestLength
+//@   ensures [declared_too_large_is_refused_unprocessed] request.ContentLength > h.Service.MaxRequestLength ==> ghost.handled == old(ghost.handled)
+
+//@ func (*Handler).ServeFastHTTP
+//@   prop C13 C12
+//@   havoc
+//@   modifies ghost.*
+//@   requires h != nil && h.Service != nil
+//@   stable h.Service, h.Service.MaxRequestLength
+//@   atcall Handle [request_is_a_copy_of_the_whole_body] len(request) == len(body) && forall(i, 0, len(body), request[i] == body[i])
+//@   ensures [processed_only_within_limit] ghost.handled == old(ghost.handled) || len(ghost.handled_req) <= h.Service.MaxRequestLength
+
+// response-header helpers: not part of any property; thin frames so that the handlers above
+// are verified against them modularly (assumed: they only write response headers)
+//@ func (*Handler).sendHeader
+//@   havoc
+//@   modifies ghost.http_status[*]
+//@ func (*Handler).sendFastHTTPHeader
+//@   havoc
+//@ func (*Handler).getServiceContext
+//@   havoc
+//@   modifies ghost.dict_has[*], ghost.dict_int[*]
+//@ func (*Handler).getFastHTTPServiceContext
+//@   havoc
+//@   modifies ghost.dict_has[*], ghost.dict_int[*]
